@@ -352,8 +352,47 @@ def connect_twice(sx):
         GeckoConfig.PROTOCOL_TIMEOUT_IN_SECONDS = saved
 
 
+def reported_naming_loads_modules(sx):
+    """both clients map the config-file naming a spa reports (platform, config version, log version - the two
+    versions different wherever the platform ships such a pair) to the table modules that declare exactly them"""
+    import geckolib.driver.protocol as P
+    from geckolib.spa import GeckoSpa
+    from .common import SRC_ID, CLI_ID, DEST
+    from .c16 import _Desc
+    PARMS = (DEST[0], DEST[1], SRC_ID, CLI_ID)
+    decl = current_declared()
+    import re as _re
+
+    def versions(plat, kind):
+        return sorted(int(m.group(1)) for m in (_re.fullmatch(_re.escape(plat) + f"-{kind}-(\\d+)", k) for k in decl) if m)
+    plats = [p_ for p_ in sorted(platforms_of(decl)) if versions(p_, "cfg") and versions(p_, "log")]
+    plat = plats[sx.choice("platform", len(plats))]
+    cfgs, logs = versions(plat, "cfg"), versions(plat, "log")
+    pairs = [(c, l) for c in (cfgs[0], cfgs[-1]) for l in (logs[0], logs[-1])]
+    c, l = pairs[sx.choice("versions", len(pairs))]
+    name = decl[plat]["GeckoPack"]["name"]
+    reported = "MrSt" if name == "MrSteam" else name
+    content = P.GeckoConfigFileProtocolHandler.response(reported, c, l, parms=PARMS)._content
+    h = P.GeckoConfigFileProtocolHandler()
+    h.handle(content, PARMS)
+    spa = GeckoSpa(_Desc())
+    asked = []
+    spa.struct.retry_request = lambda *a: asked.append(a)
+    spa._on_config_received(h, PARMS)
+    cm, lm = type(spa.new_config_class).__module__, type(spa.new_log_class).__module__
+    sx.check(cm == f"geckolib.driver.packs.{plat}-cfg-{c}" and lm == f"geckolib.driver.packs.{plat}-log-{l}",
+             "mod.threaded-client-loads-the-reported-modules", lambda: f"{plat} {c}/{l}: {cm} / {lm}")
+    sx.check(spa.new_config_class.version == c and spa.new_log_class.version == l and len(asked) == 1,
+             "mod.threaded-client-versions")
+
+
+def platforms_of(decl):
+    return {m for m in decl if "-cfg-" not in m and "-log-" not in m}
+
+
 def units(tier):
     yield Unit("connect-twice", connect_twice, validate=False)
+    yield Unit("reported-naming", reported_naming_loads_modules, validate=False)
     for key, (mod, tag, prec) in sorted(groups().items(), key=lambda kv: (kv[1][0], kv[1][1])):
         yield Unit(f"equiv.{mod}.{tag}", equiv(mod, tag, prec), max_paths=20000, ratio_floats=True)
     from . import c04
